@@ -16,11 +16,11 @@ Definition semgrep_spec (doc : json) : list finding :=
 
 Definition is_codeql (run : json) : bool := match codeql_detect run with Some b => b | None => false end.
 
-Definition codeql_spec (doc : json) : list finding :=
+Definition codeql_spec (scd : sc_default) (doc : json) : list finding :=
   flat_map (fun run =>
     if is_codeql run then
       flat_map (fun result =>
-        flat_map (fun loc => match codeql_location (rule_of run result) loc with Some f => [f] | None => [] end)
+        flat_map (fun loc => match codeql_location scd (rule_of run result) loc with Some f => [f] | None => [] end)
                  (arr_of (jget s_locations result)))
         (arr_of (jget s_results run))
     else [])
@@ -43,13 +43,13 @@ Definition readable_semgrep (doc : json) : bool :=
       | None => false
       end)).
 
-Definition readable_codeql (doc : json) : bool :=
+Definition readable_codeql (scd : sc_default) (doc : json) : bool :=
   all_arr (jget s_runs doc) (fun run =>
     match codeql_detect run with
     | Some true =>
         all_arr (jget s_results run) (fun result =>
           match extract_rule_id result run with
-          | Some rule => all_arr (jget s_locations result) (fun loc => is_some (codeql_location rule loc))
+          | Some rule => all_arr (jget s_locations result) (fun loc => is_some (codeql_location scd rule loc))
           | None => false
           end)
     | Some false => true
